@@ -1161,6 +1161,11 @@ type script struct {
 	Status int        `json:"status,omitempty"`
 	Header [][]string `json:"header,omitempty"`                       // key, values... ; sorted by key
 	Seq    bool       `json:"after_custom_message_helpers,omitempty"` // ran after seqMutators() in the same process
+	// fields of the REQUEST the handler answers (handler-supplied values are made to coincide with them)
+	RQuery  string `json:"request_query,omitempty"`
+	RCID    string `json:"request_cid,omitempty"`
+	RParams *J     `json:"request_params,omitempty"`
+	RToken  *J     `json:"request_token,omitempty"`
 }
 
 // seqMutators: helper calls carrying a custom message (and their message-less siblings), on Request and QueryRequest
@@ -1473,10 +1478,23 @@ func (sv *svc) run(sc *script) ([]byte, bool) {
 	reply := "reply." + strconv.Itoa(sv.n)
 	subj := map[string]string{"call": "call.test.model.m", "auth": "auth.test.model.a", "access": "access.test.model",
 		"get": "get.test.model", "new": "call.test.model.new"}[sc.Req]
-	data := []byte(`{}`)
+	req := map[string]interface{}{}
 	if sc.Status != 0 || len(sc.Header) > 0 {
-		data = []byte(`{"isHttp":true}`)
+		req["isHttp"] = true
 	}
+	if sc.RQuery != "" {
+		req["query"] = sc.RQuery
+	}
+	if sc.RCID != "" {
+		req["cid"] = sc.RCID
+	}
+	if sc.RParams != nil {
+		req["params"] = marshalerJ{*sc.RParams}
+	}
+	if sc.RToken != nil {
+		req["token"] = marshalerJ{*sc.RToken}
+	}
+	data, _ := json.Marshal(req)
 	sv.c.in <- &nats.Msg{Subject: subj, Reply: reply, Data: data}
 	for {
 		select {
@@ -1744,6 +1762,35 @@ func errorMatrix(full bool) []*script {
 }
 
 func genScript(r *Rng) *script {
+	sc := genScript0(r)
+	// the request's own fields; with a good chance the handler-supplied values coincide with them
+	if r.Chance(50) {
+		sc.RQuery = r.Pick([]string{"q=1", "a=b&c=<d>", "limit=10", "x"})
+		if (sc.Kind == "model" || sc.Kind == "collection") && sc.Req == "get" && r.Chance(60) {
+			sc.Query = r.Pick([]string{sc.RQuery, sc.RQuery, strings.ToUpper(sc.RQuery), sc.RQuery[:len(sc.RQuery)-1], sc.RQuery + "&"}) // RQuery pool is ASCII
+		}
+		if (sc.Kind == "invalidquery" || sc.Kind == "error" || sc.Kind == "errorother" || sc.Kind == "panicstring") && r.Chance(40) {
+			sc.Msg = sc.RQuery
+		}
+	}
+	if r.Chance(40) {
+		sc.RCID = r.Pick([]string{"cid1", "bt8v2qnpk3a"})
+		if sc.Kind == "ok" && r.Chance(30) {
+			j := jstr(sc.RCID)
+			sc.Result = &j
+		}
+	}
+	if r.Chance(30) {
+		p := genJ(r, 2, false)
+		sc.RParams = &p
+		if sc.Kind == "ok" && sortedUnique(p) && r.Chance(50) {
+			sc.Result = &p
+		}
+	}
+	return sc
+}
+
+func genScript0(r *Rng) *script {
 	sc := &script{}
 	msgs := []string{"", "Custom message", "with \"quotes\" <&>", "é\u2028", "x"}
 	codes := []string{"system.notFound", "custom.error", "", "a<b"}
@@ -2254,6 +2301,49 @@ func main() {
 				continue
 			}
 			add("response", c)
+		}
+		// handler-supplied values that coincide with fields of the request being answered: the client must still
+		// decode exactly what the handler supplied (nothing may be dropped or abbreviated because the requester "knows" it)
+		for qi, rq := range []string{"q=1", "a=b&c=d", "limit=10&from=0", "name=é&tag=<x>"} {
+			parts := strings.SplitN(rq, "&", 2)
+			reordered := rq
+			if len(parts) == 2 {
+				reordered = parts[1] + "&" + parts[0]
+			}
+			rs := []rune(rq)
+			for vi, q := range []string{rq, string(rs[:len(rs)/2]), string(rs[len(rs)/2:]), strings.ToUpper(rq), reordered, "", rq + "&x=1", "other=1", "?" + rq, rq + " "} {
+				m, c := jobj(mem("query", jstr(rq))), jarr(jstr(rq), jstr(q))
+				for _, sc := range []*script{{Req: "get", Kind: "model", Result: &m, Query: q, RQuery: rq}, {Req: "get", Kind: "collection", Result: &c, Query: q, RQuery: rq},
+					{Req: "get", Kind: "model", Result: &m, Query: q}, {Req: "get", Kind: "collection", Result: &c, Query: q, RQuery: strings.ToUpper(rq)}} {
+					if (qi+vi)%2 == 0 {
+						sc.RCID = "cid123"
+					}
+					if cs, iv := caseResp(sv, sc); iv != nil {
+						impl = append(impl, *iv)
+					} else {
+						add("response-echo", cs)
+					}
+				}
+			}
+			cid, method := "cid"+strconv.Itoa(qi), "m"
+			params := jobj(mem("query", jstr(rq)), mem("rid", jstr("test.model")))
+			cidJ, ridJ := jstr(cid), jstr("test.model")
+			edata := jobj(mem("cid", jstr(cid)), mem("query", jstr(rq)))
+			for _, sc := range []*script{
+				{Req: "call", Kind: "ok", Result: &cidJ}, {Req: "call", Kind: "ok", Result: &params}, {Req: "auth", Kind: "ok", Result: &ridJ},
+				{Req: "call", Kind: "resource", Rid: "test.model"}, {Req: "auth", Kind: "resource", Rid: "test.model?" + rq}, {Req: "new", Kind: "new", Rid: "test.model"},
+				{Req: "call", Kind: "error", Code: rq, Msg: method, Data: &edata}, {Req: "get", Kind: "error", Code: "test.model", Msg: rq},
+				{Req: "call", Kind: "invalidquery", Msg: rq}, {Req: "get", Kind: "invalidquery", Msg: rq}, {Req: "call", Kind: "invalidparams", Msg: string(printJ(params))},
+				{Req: "access", Kind: "access", Get: true, Call: method}, {Req: "access", Kind: "access", Call: rq}, {Req: "call", Kind: "panicstring", Msg: rq},
+				{Req: "call", Kind: "errorother", Msg: cid}, {Req: "query", Kind: "model", Result: &params}, {Req: "query", Kind: "error", Code: "q=1", Msg: "q=1"},
+			} {
+				sc.RQuery, sc.RCID, sc.RParams, sc.RToken = rq, cid, &params, &edata
+				if cs, iv := caseResp(sv, sc); iv != nil {
+					impl = append(impl, *iv)
+				} else {
+					add("response-echo", cs)
+				}
+			}
 		}
 		// sequences in this one process: helper calls with a custom message (on Request and on QueryRequest), then
 		// responses built from the predefined error VARIABLES through every path that encodes them (not the
